@@ -21,6 +21,11 @@ type TypeSpec struct {
 
 var relationType = reflect.TypeOf(ecs.Relation{})
 
+// Relation is a look-alike: a type that is merely NAMED Relation. Embedding it first must not make a relation.
+type Relation struct{}
+
+var lookalikeType = reflect.TypeOf(Relation{})
+
 // Canary is the heap object referenced by pointer-carrying components.
 type Canary struct {
 	ID  uint64
@@ -92,6 +97,18 @@ func BuildType(t TypeSpec, k int, ptrSeq *int) reflect.Type {
 		return reflect.StructOf([]reflect.StructField{
 			{Name: name, Type: reflect.ArrayOf(t.Size, byteT)},
 			{Name: "Relation", Type: relationType, Anonymous: true},
+		})
+	case "relnamed":
+		// first field is an embedded type named Relation that is not ecs.Relation: not a relation
+		return reflect.StructOf([]reflect.StructField{
+			{Name: "Relation", Type: lookalikeType, Anonymous: true},
+			{Name: name, Type: reflect.ArrayOf(t.Size, byteT)},
+		})
+	case "relptr":
+		// first field is an embedded *ecs.Relation (a pointer, kept nil): not a relation
+		return reflect.StructOf([]reflect.StructField{
+			{Name: "Relation", Type: reflect.PtrTo(relationType), Anonymous: true},
+			{Name: name, Type: reflect.ArrayOf(t.Size, byteT)},
 		})
 	case "array":
 		// non-struct kind; distinctness comes from the length, which the planner keeps unique
